@@ -180,6 +180,8 @@ ClientDone(r, v) ==
        CASE RespKind(r) = "full" /\ ~Translated(q.route) ->
                /\ v.from /\ v.e = q.cur /\ v.a = q.att      \* C02: headers and every byte from ONE attempt
                /\ v.st = q.pst /\ v.complete /\ v.n = q.pn /\ v.junk = q.pb /\ v.mixed = FALSE
+               \* ... including a header that attempt sent on two lines: both values, in order, nothing else
+               /\ v.hmAll = 2 /\ v.hmOwn = 2
          [] RespKind(r) = "full" /\ Translated(q.route) ->
                \* the body is a translation (C13 judges its content); C05: the backend's status survives,
                \* and an error answer is an Anthropic error object
@@ -190,6 +192,7 @@ ClientDone(r, v) ==
                \* something the properties state, so v.complete is left free
                /\ v.st = q.pst /\ v.n <= q.pk /\ v.mixed = FALSE
                /\ v.junk < TokenLen      \* at most a torn token; never text of olla's own making
+               /\ v.hmAll = 2 /\ v.hmOwn = 2
          [] RespKind(r) = "partial" /\ Translated(q.route) -> TRUE
          [] RespKind(r) = "crash" -> ~v.from /\ (v.st = 0 \/ v.st >= 500) /\ v.n = 0
          [] RespKind(r) = "error" ->                       \* C05: a failure is reported as a failure
@@ -203,14 +206,14 @@ ClientDone(r, v) ==
 (* MC: the environment picks kinds; the client view is the one the spec itself prescribes *)
 SpecView(r) == LET q == rq[r] IN
     CASE RespKind(r) = "full"    -> [from |-> TRUE, e |-> q.cur, a |-> q.att, st |-> q.pst, complete |-> TRUE,
-                                     n |-> q.pn, junk |-> q.pb, mixed |-> FALSE, bodyClass |-> "tokens", ms |-> 1]
+                                     n |-> q.pn, junk |-> q.pb, mixed |-> FALSE, bodyClass |-> "tokens", ms |-> 1, hmAll |-> 2, hmOwn |-> 2]
       [] RespKind(r) = "partial" -> [from |-> TRUE, e |-> q.cur, a |-> q.att, st |-> q.pst, complete |-> FALSE,
-                                     n |-> q.pk, junk |-> 0, mixed |-> FALSE, bodyClass |-> "tokens", ms |-> 1]
+                                     n |-> q.pk, junk |-> 0, mixed |-> FALSE, bodyClass |-> "tokens", ms |-> 1, hmAll |-> 2, hmOwn |-> 2]
       [] RespKind(r) = "crash"   -> [from |-> FALSE, e |-> None, a |-> 0, st |-> 0, complete |-> FALSE,
-                                     n |-> 0, junk |-> 0, mixed |-> FALSE, ms |-> 1, bodyClass |-> "empty"]
+                                     n |-> 0, junk |-> 0, mixed |-> FALSE, ms |-> 1, bodyClass |-> "empty", hmAll |-> 0, hmOwn |-> 0]
       [] OTHER                   -> [from |-> FALSE, e |-> None, a |-> 0, st |-> 502, complete |-> TRUE,
                                      n |-> 0, junk |-> 1, mixed |-> FALSE, ms |-> 1,
-                                     bodyClass |-> IF Translated(q.route) THEN "anthropic_error" ELSE "text"]
+                                     bodyClass |-> IF Translated(q.route) THEN "anthropic_error" ELSE "text", hmAll |-> 0, hmOwn |-> 0]
 Next ==
     \/ \E e \in EP : \E d \in BOOLEAN : SetDown(e, d) /\ scn' = Append(scn, <<"SetDown", e, d>>)
     \/ \E e \in EP : HealthStore(e, IF down[e] THEN "offline" ELSE "healthy") /\ status[e] # (IF down[e] THEN "offline" ELSE "healthy")
